@@ -21,6 +21,7 @@ class TableInfo:
     sub_select: ast.ASTNode = None
     predictor_info: dict = None
     join_condition = None
+    join_type = None
     index: int = None
     # the name was written with its integration (a qualified name never refers to a CTE)
     is_qualified: bool = False
@@ -160,7 +161,7 @@ class PlanJoinTablesQuery:
         if parts in self.tables_idx:
             return self.tables_idx[parts]
 
-    def get_join_sequence(self, node, condition=None):
+    def get_join_sequence(self, node, condition=None, join_type=None):
         sequence = []
         if isinstance(node, Identifier):
             # resolve identifier
@@ -176,6 +177,7 @@ class PlanJoinTablesQuery:
 
             if condition is not None:
                 table_info.join_condition = condition
+                table_info.join_type = join_type
             sequence.append(table_info)
 
         elif isinstance(node, Join):
@@ -186,7 +188,7 @@ class PlanJoinTablesQuery:
             for item in sequence2:
                 sequence.append(item)
 
-            sequence2 = self.get_join_sequence(node.right, condition=node.condition)
+            sequence2 = self.get_join_sequence(node.right, condition=node.condition, join_type=node.join_type)
             if len(sequence2) != 1:
                 raise PlanningException('Unexpected join nesting behavior')
 
@@ -479,6 +481,11 @@ class PlanJoinTablesQuery:
         return columns_map
 
     def get_filters_from_join_conditions(self, fetch_table):
+
+        join_type = ' '.join((fetch_table.join_type or '').upper().split())
+        if join_type not in ('JOIN', 'INNER JOIN', 'LEFT JOIN', 'LEFT OUTER JOIN'):
+            # RIGHT / FULL joins keep the rows of this table that have no match: its fetch must not be restricted by the ON clause
+            return []
 
         binary_ops = set()
         conditions = []
